@@ -2,6 +2,7 @@ package gedcom
 
 import (
 	"fmt"
+	"sync"
 )
 
 // DateNode represents a DATE node.
@@ -13,15 +14,18 @@ type DateNode struct {
 	// Dates are expensive to parse so we should not attempt to parse the value
 	// until it is needed. Also, if we have already parsed the value once it
 	// should not be parsed again.
-	alreadyParsed   bool
+	//
+	// The same DATE node is read by several goroutines when individuals are
+	// compared or pages are rendered with more than one job, so "once" is left
+	// to sync.Once. The parsed value is never forgotten.
+	parseOnce       sync.Once
 	parsedDateRange DateRange
 }
 
 // NewDateNode creates a new DATE node.
 func NewDateNode(value string, children ...Node) *DateNode {
 	return &DateNode{
-		newSimpleNode(TagDate, value, "", children...),
-		false, DateRange{},
+		SimpleNode: newSimpleNode(TagDate, value, "", children...),
 	}
 }
 
@@ -32,16 +36,11 @@ func (node *DateNode) DateRange() (dateRange DateRange) {
 	}
 
 	// Parsing dates is very expensive. Cache them.
-	if node.alreadyParsed {
-		return node.parsedDateRange
-	}
+	node.parseOnce.Do(func() {
+		node.parsedDateRange = NewDateRangeWithString(node.Value())
+	})
 
-	defer func(node *DateNode) {
-		node.parsedDateRange = dateRange
-		node.alreadyParsed = true
-	}(node)
-
-	return NewDateRangeWithString(node.Value())
+	return node.parsedDateRange
 }
 
 // String returns the date range as defined in the specification of DateNode.
